@@ -60,8 +60,10 @@ def oracle(ck, tier, deep):
         for degree in (0, 1, 2, 3):
             ref = quiet(daun.daun_transform, X, degree=degree)
             cond = np.linalg.cond(quiet(daun._bs_daun, n, degree))
-            for reg in (0, 0.0, ("diff", 0), ("L2", 0), ("L2c", 0), ("L2", 0.0)):
+            for reg in (0, 0.0, ("diff", 0), ("L2", 0), ("L2c", 0), ("L2", 0.0), None):
                 ck.count(("S.reg0.daun", n, degree, str(reg)), suite="S.equivalence")
+                # (right after a call with a non-zero strength of the same size and degree: nothing of it may be reused)
+                quiet(daun.daun_transform, X, degree=degree, reg=[("L2", 1.0), ("diff", 3.0), ("L2c", 0.5)][len(str(reg)) % 3])
                 got = quiet(daun.daun_transform, X, degree=degree, reg=reg)
                 if np.abs(got - ref).max() > 1e-12 * cond * n * np.abs(X).max():
                     ck.violation(dict(site="daun", clause="reg-zero"), dict(n=n, degree=degree, reg=list(reg) if isinstance(reg, tuple) else reg, X=X.tolist()),
